@@ -166,6 +166,11 @@ def main():
     if args[0] == '--setup':
         gc_build()
         ok = True
+        # reference-model self-test: the reference MessagePack codec against an independent implementation
+        r = sh([sys.executable, os.path.join(VERIF, 'tools', 'ref_selftest.py')])
+        print(r.stdout.strip().splitlines()[-1] if r.stdout.strip() else 'ref_selftest: no output')
+        if r.returncode != 0:
+            print(r.stdout[-3000:]); ok = False
         ready = [l.strip() for l in open(os.path.join(VERIF, 'checks.d', 'READY.txt')) if l.strip() and not l.startswith('#')]
         props = args[1:] or ready
         t0 = time.time()
